@@ -200,19 +200,26 @@ static_assert(std::is_trivially_default_constructible_v<TP<0>> && std::is_trivia
 
 // an element type whose copy / move CONSTRUCTORS throw when the fuse has burnt down (op `uhist` / `umon`):
 // fuse = k: k constructions succeed, the (k+1)-th throws (and creates no object, so it logs nothing); fuse < 0: never
+// In a build without exceptions (-fno-exceptions: the `#else` branches of uninitialized_copy / _move / _fill) nothing can
+// throw: the harness runs only the cases whose fuse never burns down there.
+#if defined(__cpp_exceptions)
+    #define C03_FUSE_BLOWN() throw 1
+#else
+    #define C03_FUSE_BLOWN() __builtin_trap()
+#endif
 inline int g_fuse = -1;
 struct TrkX {
     int v;
     explicit TrkX(int x) : v{x} { log(CV, this, nullptr, x); }
     TrkX(TrkX const& o) : v{o.v}
     {
-        if (g_fuse == 0) { throw 1; }
+        if (g_fuse == 0) { C03_FUSE_BLOWN(); }
         if (g_fuse > 0) { --g_fuse; }
         log(CC, this, &o, v);
     }
     TrkX(TrkX&& o) : v{o.v}
     {
-        if (g_fuse == 0) { throw 1; }
+        if (g_fuse == 0) { C03_FUSE_BLOWN(); }
         if (g_fuse > 0) { --g_fuse; }
         o.v = moved_marker;
         log(CM, this, &o, v);
